@@ -987,6 +987,37 @@ Proof.
   all: destruct curv; [apply (mk_flat2_wf' _ _ _ Ed) | apply (mk_curved_wf _ _ _ _ _ Ed) | apply (mk_curved_wf _ _ _ _ _ Ed)].
 Qed.
 
+(* the alignment /repo uses since fix 5d26109 ([fixed = true]): explicit detector axes exactly perpendicular, or
+   defaulted (then they are the images of e_x, e_z under transform_system's rotation, hence perpendicular) *)
+Lemma mk_cone_wf_current (rs rd : R) (curv : curv3) (pitch off : R) (axis : V3) (s2d : option V3)
+    (axes : option (V3 * V3)) (tr : V3) (g : cone) :
+  match axes with Some (a0, a1) => dot3 a0 a1 = 0 | None => True end ->
+  mk_cone sqrt true rs rd curv pitch off axis s2d axes tr = Some g ->
+  dot3 (c_axis g) (c_axis g) = 1 /\ dot3 (c_s2d g) (c_s2d g) = 1 /\ wf_det3' (c_det g) /\
+  0 <= c_rs g /\ 0 <= c_rd g /\ ~ (c_rs g = 0 /\ c_rd g = 0) /\
+  c_tr g = tr /\ c_pitch g = pitch /\ c_off g = off.
+Proof.
+  intros Hax. unfold mk_cone, obind. destruct (tsys3 sqrt axis _) as [m|] eqn:Em; [|intros Hx; discriminate Hx].
+  assert (Hperp : let '(a0, a1) := match axes with Some a => a | None => (mv3 m (1, 0, 0), mv3 m (0, 0, 1)) end in
+                  dot3 a0 a1 = 0).
+  { destruct axes as [[a0 a1]|]; [exact Hax|]. numR.
+    rewrite (rot3_isometry m _ _ (proj1 (tsys3_rot _ _ _ Em))). unf. ring. }
+  numR. destruct (match axes with Some a => a | None => _ end) as [a0 a1].
+  set (sd := match s2d with Some p => p | None => _ end).
+  destruct (Reqb_spec (norm3 sqrt sd) 0) as [Hn|Hn]; [intros Hx; discriminate Hx|].
+  destruct (unit_axis sqrt axis) as [ua|] eqn:Eu; [|intros Hx; discriminate Hx].
+  destruct (match curv with CFlat => _ | CCyl r => _ | CSph r => _ end) as [d|] eqn:Ed; [|intros Hx; discriminate Hx].
+  destruct (Rltb_spec rs 0) as [H1|H1]; [intros Hx; discriminate Hx|].
+  destruct (Rltb_spec rd 0) as [H2|H2]; [intros Hx; discriminate Hx|].
+  destruct (Reqb_spec rs 0) as [H3|H3]; destruct (Reqb_spec rd 0) as [H4|H4]; cbn [andb];
+    try (intros Hx; discriminate Hx).
+  all: intros [= <-]; cbn.
+  all: repeat split; try lra; try (apply (unit_axis_some _ _ Eu)); try (apply normalize3_unit, Hn);
+    try (intros [A B]; lra).
+  all: destruct curv; [apply (mk_flat2_wf' _ _ _ Ed) | apply (mk_curved_fixed_wf _ _ _ _ _ Hperp Ed)
+                       | apply (mk_curved_fixed_wf _ _ _ _ _ Hperp Ed)].
+Qed.
+
 (* ------------------------------------------------------------ frommatrix *)
 
 (* a 2-d rotation matrix has the form ((a, -c), (c, a)) *)
